@@ -148,7 +148,7 @@ def check_cli(ctx, src, p, config, keep_file, workdir, case):
         if os.path.exists(f):
             os.remove(f)
     with open(p1, 'wb') as fh:
-        fh.write(rc.write_p8(regions, src, version=ambient.VERSION[0]))
+        fh.write(rc.write_p8_variant(ctx.rng, regions, src, version=ambient.VERSION[0]))
     argv = [ambient.vflag(), 'luamin']
     if config == 'keep_all':
         argv.append('--keep-all-names')
